@@ -40,11 +40,13 @@ func (h *Handler) StartHunt(addr packet.Addr) (packet.HuntStage, error) {
 		return packet.StageHunt, nil
 	}
 	h.huntList[string(addr.MAC)] = addr
+	stop := make(chan struct{})
+	h.huntStop[string(addr.MAC)] = stop
 
 	if Logger.IsInfo() {
 		Logger.Msg("start hunt").Struct(addr).Write()
 	}
-	go h.spoofLoop(addr)
+	go h.spoofLoop(addr, stop)
 	return packet.StageHunt, nil
 }
 
@@ -55,6 +57,12 @@ func (h *Handler) StopHunt(addr packet.Addr) (packet.HuntStage, error) {
 	if hunting {
 		// remove the addr from the hunt list which will cause hunting goroutine to terminate.
 		delete(h.huntList, string(addr.MAC))
+		// wake up the loop of this hunt: if the mac is hunted again before the loop's next
+		// cycle, the old loop must not mistake the new hunt for its own and carry on beside the new loop
+		if stop := h.huntStop[string(addr.MAC)]; stop != nil {
+			close(stop)
+			delete(h.huntStop, string(addr.MAC))
+		}
 	}
 	h.arpMutex.Unlock()
 	if !hunting {
@@ -70,7 +78,7 @@ func (h *Handler) StopHunt(addr packet.Addr) (packet.HuntStage, error) {
 // continuously send poisoned arp packets to client to keep its arp
 // table pointing to us as the default gw.
 //
-func (h *Handler) spoofLoop(addr packet.Addr) {
+func (h *Handler) spoofLoop(addr packet.Addr, stop chan struct{}) {
 	// The client ARP table is refreshed often and only last for a short while (i.e. a few minutes)
 	// To make sure the cache stays poisoned, replay every few seconds with a loop.
 	// 6 second re-arp seem to be adequate;
@@ -82,6 +90,11 @@ func (h *Handler) spoofLoop(addr packet.Addr) {
 		h.arpMutex.Lock()
 		targetAddr, hunting := h.findHuntByIP(addr.IP)
 		h.arpMutex.Unlock()
+		select {
+		case <-stop: // StopHunt was called for this hunt
+			hunting = false
+		default:
+		}
 
 		if !hunting || h.closed {
 			if Logger.IsInfo() {
@@ -118,6 +131,8 @@ func (h *Handler) spoofLoop(addr packet.Addr) {
 		select {
 		case <-h.closeChan:
 			// do nothing, we will detect the channel is closed at the start of the loop and terminate the goroutine
+		case <-stop:
+			// do nothing, we will detect the hunt was stopped at the start of the loop and terminate the goroutine
 		case <-ticker:
 		}
 	}
